@@ -793,3 +793,24 @@ Qed.
 Theorem memo_executor_refuted :
   exists t, fst (fold_left (memo_step false) [Some t; None; Some t] (None, "")) <> Some t.
 Proof. exists "T". vm_compute. discriminate. Qed.
+
+(* ---- rendering the same object again: a generator that compacts the caller's list in place *)
+Theorem dedupe_pure_rerender l : fst (dedupe_pure (snd (dedupe_pure l))) = fst (dedupe_pure l).
+Proof. reflexivity. Qed.
+
+Theorem dedupe_inplace_refuted :
+  exists l, fst (dedupe_inplace (snd (dedupe_inplace l))) <> fst (dedupe_inplace l).
+Proof. exists ["X-A"; "X-B"; "X-A"]. vm_compute. discriminate. Qed.
+
+(* ---- across processes: names may depend on the inputs only *)
+Theorem namer_seed_free cap h :
+  (forall s1 s2 x, h s1 x = h s2 x) -> forall s1 s2 x, namer cap h s1 x = namer cap h s2 x.
+Proof. intros H s1 s2 x. unfold namer. rewrite (H s1 s2 x). reflexivity. Qed.
+
+Theorem namer_short_names_unaffected cap h s1 s2 x :
+  String.length x <= cap -> namer cap h s1 x = namer cap h s2 x.
+Proof. intros L. unfold namer. apply Nat.leb_le in L. rewrite L. reflexivity. Qed.
+
+Theorem namer_seeded_refuted :
+  exists h s1 s2 x, namer 4 h s1 x <> namer 4 h s2 x.
+Proof. exists (fun seed _ => seed), "1", "2", "abcdefgh". vm_compute. discriminate. Qed.
